@@ -9,7 +9,7 @@ from __future__ import annotations
 
 import ast
 import fnmatch
-from typing import Iterable, List, Optional, Sequence, Set
+from typing import Dict, Iterable, List, Optional, Sequence, Set
 
 from ..cfg import CFG, use_before_def
 from ..exprnorm import norm_test
@@ -387,3 +387,35 @@ def g6_lookup_by_short_name(prog: Program, run: Run, rule: str, patterns: Sequen
     run.ok(rule, "package", f"{n} keyed lookups examined, none uses a raw short name on a "
            "NamedItemList", "odxtools/")
     return n
+
+
+def resolve_locals(fn: ast.AST, expr: ast.AST, depth: int = 4) -> ast.AST:
+    """``expr`` with every local name that has exactly one simple definition in ``fn`` replaced
+    by that definition (repeatedly, up to ``depth`` levels)."""
+    import copy
+    defs: Dict[str, List[ast.AST]] = {}
+    for x in walk_no_nested(fn):
+        if isinstance(x, (ast.Assign, ast.AnnAssign)) and getattr(x, "value", None) is not None:
+            tgs = x.targets if isinstance(x, ast.Assign) else [x.target]
+            for t in tgs:
+                if isinstance(t, ast.Name):
+                    defs.setdefault(t.id, []).append(x.value)
+        elif isinstance(x, (ast.AugAssign, ast.For, ast.NamedExpr, ast.With)):
+            tg = getattr(x, "target", None)
+            for n in ast.walk(tg) if tg is not None else []:
+                if isinstance(n, ast.Name):
+                    defs.setdefault(n.id, []).extend([None, None])  # not a single definition
+    single = {k: v[0] for k, v in defs.items() if len(v) == 1 and v[0] is not None}
+
+    class Tr(ast.NodeTransformer):
+        def visit_Name(self, node: ast.Name) -> ast.AST:
+            if isinstance(node.ctx, ast.Load) and node.id in single:
+                return copy.deepcopy(single[node.id])
+            return node
+    cur = copy.deepcopy(expr)
+    for _ in range(depth):
+        nxt = Tr().visit(copy.deepcopy(cur))
+        if ast.dump(nxt) == ast.dump(cur):
+            break
+        cur = nxt
+    return ast.fix_missing_locations(cur)
